@@ -44,6 +44,8 @@ def shard(args):
     for filler, base in bases.base_ibans(country, fillers):
         gens = [families.single_edits(base, W), families.iban_lengths(base),
                 families.iban_prefixes(base), families.iban_checkpairs(base)]
+        if filler == "distinct":
+            gens.append(families.ws_padding(base))
         if tier == "thorough" and filler in ("distinct", "letters"):
             gens.append(families.double_subst(base))
         k, v = lib.iban_parse(base)
